@@ -62,7 +62,8 @@ class SimulationScenario():
         if "points" in dictionary:
             self.points = dictionary["points"]
             if model is not None:
-                self.model.points = self.points
+                # override the listed graphical functions, keep the model's other ones
+                self.model.points = {**self.model.points, **self.points}
         else:
             self.points = {}
 
